@@ -1,0 +1,23 @@
+//go:build verif
+
+// Package verifhook provides named gate/event points for verification builds.
+package verifhook
+
+import "sync/atomic"
+
+// Handler receives the name of the point reached and its arguments; it may block.
+type Handler func(point string, args ...any)
+
+var handler atomic.Value
+
+// Set installs h as the handler, nil uninstalls.
+func Set(h Handler) {
+	handler.Store(h)
+}
+
+// At reports that the calling goroutine reached point.
+func At(point string, args ...any) {
+	if h, ok := handler.Load().(Handler); ok && h != nil {
+		h(point, args...)
+	}
+}
